@@ -60,6 +60,12 @@ def roundScaled (neg : Bool) (n : Nat) (e : Int) : F64 :=
 /-- `+1` / `-1`. -/
 def sgn (neg : Bool) : Int := if neg then -1 else 1
 
+/-- The sign bit (false for NaN, whose sign is not modelled). -/
+def signBit : F64 → Bool
+  | .nan => false
+  | .inf s => s
+  | .fin s _ _ => s
+
 /-- Unary minus (flips the sign bit; NaN stays NaN). -/
 def neg : F64 → F64
   | .nan => .nan
